@@ -320,6 +320,26 @@ def extra(stats, tier, seed):
             th.join(30)
             if got != [MSG]:
                 viol("AsyncioExecutor(loop=None).submit after shutdown, from a thread without an event loop: %r" % (got,), "shutdown:submit-after:submit", "asyncio-noloop")
+            # the executor's loop is RUNNING (in another thread) when an ordinary thread shuts down: the arguments still go down unchanged
+            rec = Rec()
+            loop2 = asyncio.new_event_loop()
+            th2 = det._real_Thread(target=loop2.run_forever, daemon=True)
+            th2.start()
+            try:
+                import time as _time
+                t0 = _time.time()
+                while not loop2.is_running() and _time.time() < t0 + 10:
+                    _time.sleep(0.01)
+                ex = AsyncioExecutor(rec, loop=loop2)
+                ex.shutdown(True, cancel_futures=False)
+                stats.add([[11, 4]], True, None, ["api:asyncio-loop-running"])
+                if rec.calls != [((True,), (("cancel_futures", False),))]:
+                    viol("AsyncioExecutor.shutdown(True, cancel_futures=False) with its loop running in another thread reached the delegate as %r" % (rec.calls,),
+                         "shutdown:propagation-args", "asyncio-loop-running")
+            finally:
+                loop2.call_soon_threadsafe(loop2.stop)
+                th2.join(10)
+                loop2.close()
         finally:
             loop.close()
     # 2. a delegate whose shutdown() RAISES: the layer is shut down all the same (flag set, submit refused, a repeated shutdown(wait=True)
